@@ -307,9 +307,14 @@ Proof. exact (consts_ok_floor_pos K HK). Qed.
 
 (* ---- one sensor object over ANY sequence of calls ------------------
    [sop] = OpRead v (the `pressure` getter while the input reads v volts) |
-   OpCalibrate v p (`calibrate(p)` while the input reads v volts);
+   OpCalibrate v p (`calibrate(p)` while the input reads v volts) |
+   OpSetSupply vcc (the assignment `sensor.voltage_in = vcc` of the public
+   supply-voltage attribute: the measured rail, or the real value after a
+   placeholder at construction);
    [observations K s0 ops] = what each call returned, [final_state K s0 ops] =
-   the object afterwards; [is_read o] = o is an OpRead. *)
+   the object afterwards; [is_read o] = o is an OpRead; [no_calibrate o] = o is
+   an OpRead or an OpSetSupply; [last_supply vcc ops] = the last value assigned
+   to voltage_in by [ops], [vcc] if there is none. *)
 
 (* reads never change the object (no caching, no drift) *)
 Theorem C18_reads_keep_state : forall s ops,
@@ -318,10 +323,11 @@ Proof. exact (reads_keep_state K). Qed.
 
 (* after calibrate(p), p >= 0, the sensor reports p at the calibration
    voltage -- whatever was done with the object before (reads, earlier
-   calibrations, failed calibrations: [pre] is arbitrary) and however many
-   reads at whatever voltages lie in between *)
+   calibrations, failed calibrations, assignments of voltage_in: [pre] is
+   arbitrary) and however many reads at whatever voltages and assignments of
+   voltage_in lie in between *)
 Theorem C18_history_calibrated : forall s0 pre v p mid,
-  0 <= p -> Forall is_read mid ->
+  0 <= p -> Forall no_calibrate mid ->
   exists obs y,
     observations K s0 (pre ++ OpCalibrate v p :: mid ++ [OpRead v]) = obs ++ [ObsRead (Val y)] /\
     y == p.
@@ -329,7 +335,7 @@ Proof. exact (history_calibrated K HK). Qed.
 
 (* ... and at any other voltage v' the reading follows the LAST calibration *)
 Theorem C18_history_calibrated_general : forall s0 pre v p mid v',
-  ~ p == -25 -> Forall is_read mid ->
+  ~ p == -25 -> Forall no_calibrate mid ->
   exists obs y,
     observations K s0 (pre ++ OpCalibrate v p :: mid ++ [OpRead v']) = obs ++ [ObsRead (Val y)] /\
     y == (p + 25) * (pymax v' (1 # 100000) / pymax v (1 # 100000)) - 25.
@@ -342,6 +348,40 @@ Theorem C18_history_uncalibrated : forall vcc reads v,
     observations K (new_sensor vcc) (reads ++ [OpRead v]) = obs ++ [ObsRead (Val y)] /\
     y == 250 * (v / vcc) - 25.
 Proof. exact (history_uncalibrated K HK). Qed.
+
+(* "for every sensor reading and supply voltage": an uncalibrated sensor
+   divides by the supply voltage it has NOW.  Built with vcc0, then ANY reads
+   and ANY assignments of voltage_in, a read at v reports 250 v / Vcc - 25 with
+   Vcc the last value given to voltage_in (vcc0 if it was never assigned) *)
+Theorem C18_history_supply_tracked : forall vcc0 ops v,
+  Forall no_calibrate ops -> (1 # 100000) <= v -> ~ last_supply vcc0 ops == 0 ->
+  exists obs y,
+    observations K (new_sensor vcc0) (ops ++ [OpRead v]) = obs ++ [ObsRead (Val y)] /\
+    y == 250 * (v / last_supply vcc0 ops) - 25.
+Proof. exact (history_supply_tracked K HK). Qed.
+
+(* ... at every voltage and for every value of voltage_in: a value, never an
+   exception; 0 exactly while voltage_in is 0 (a sensor built with 0 follows
+   the formula as soon as voltage_in is given a non-zero value) *)
+Theorem C18_history_supply_total : forall vcc0 ops v,
+  Forall no_calibrate ops ->
+  exists obs y,
+    observations K (new_sensor vcc0) (ops ++ [OpRead v]) = obs ++ [ObsRead (Val y)] /\
+    (last_supply vcc0 ops == 0 -> y == 0) /\
+    (~ last_supply vcc0 ops == 0 ->
+       y == 250 * (pymax v (1 # 100000) / last_supply vcc0 ops) - 25).
+Proof. exact (history_supply_total K HK). Qed.
+
+(* the assignment itself: nothing returned or raised, voltage_in replaced, Vn
+   untouched; an uncalibrated sensor divides by the new value from the next
+   read on, a calibrated one reads exactly as before *)
+Theorem C18_history_set_supply : forall s vcc,
+  step_obs K s (OpSetSupply vcc) = ObsSet /\
+  voltage_in (step_state K s (OpSetSupply vcc)) = vcc /\
+  vn (step_state K s (OpSetSupply vcc)) = vn s /\
+  (vn s = None -> supply (step_state K s (OpSetSupply vcc)) = vcc) /\
+  (vn s <> None -> forall v, pressure K (step_state K s (OpSetSupply vcc)) v = pressure K s v).
+Proof. exact (step_set_supply K). Qed.
 
 (* in no history does a read raise *)
 Theorem C18_history_reads_never_raise : forall ops s0,
@@ -356,17 +396,27 @@ Theorem C18_history_calibrate_outcome : forall s v p,
                step_obs K s (OpCalibrate v p) = ObsCalibrate (Raise ZeroDivisionError)).
 Proof. exact (fun s v p => conj (step_calibrate_returns K HK s v p) (step_calibrate_fails K HK s v p)). Qed.
 
-(* complete description: after ANY calls the object is the initial one if no
-   calibrate(p <> -25) was among them, else it reads, at every voltage, as
-   the last such calibration (vc, p) says *)
+(* complete description: after ANY calls voltage_in is the last value assigned
+   to it (the initial one if none); Vn is the initial one if no
+   calibrate(p <> -25) was among the calls, else Vn is set and the object
+   reads, at every voltage and whatever voltage_in is by now, as the last
+   such calibration (vc, p) says *)
 Theorem C18_history_spec : forall s0 ops,
+  voltage_in (final_state K s0 ops) = last_supply (voltage_in s0) ops /\
   match last_cal ops with
-  | None => final_state K s0 ops = s0
+  | None => vn (final_state K s0 ops) = vn s0
   | Some (vc, p) =>
+      (exists n, vn (final_state K s0 ops) = Some n) /\
       forall v, exists y, pressure K (final_state K s0 ops) v = Val y /\
                           y == (p + 25) * (pymax v (1 # 100000) / pymax vc (1 # 100000)) - 25
   end.
 Proof. exact (history_spec K HK). Qed.
+
+(* reads and assignments of voltage_in: the object afterwards, exactly *)
+Theorem C18_history_no_calibrate_state : forall s ops,
+  Forall no_calibrate ops ->
+  final_state K s ops = {| voltage_in := last_supply (voltage_in s) ops; vn := vn s |}.
+Proof. exact (no_calibrate_state K). Qed.
 
 End PressureSensor.
 
@@ -534,6 +584,28 @@ Proof.
   split; [repeat constructor|exact (fun H => H)].
 Qed.
 
+(* the supply voltage tracked while running: a sensor built for the nominal
+   5 V reads 75 at 2 V, after `voltage_in = 3.3` it reads 4175/33 at the same
+   2 V; a sensor built with 0 reports 0, and 75 once voltage_in = 5; after
+   calibrate(50) at 2 V the assignment no longer matters *)
+Example C18_nv_supply_tracked :
+  observations doc_consts (new_sensor 5) [OpRead 2; OpSetSupply (33 # 10); OpRead 2] =
+    [ObsRead (Val (250 * (2 / 5) - 25)); ObsSet; ObsRead (Val (250 * (2 / (33 # 10)) - 25))] /\
+  250 * (2 / 5) - 25 == 75 /\ 250 * (2 / (33 # 10)) - 25 == 4175 # 33 /\
+  observations doc_consts (new_sensor 0) [OpRead 2; OpSetSupply 5; OpRead 2] =
+    [ObsRead (Val 0); ObsSet; ObsRead (Val (250 * (2 / 5) - 25))] /\
+  last_supply 5 [OpRead 2; OpSetSupply (33 # 10); OpRead 2; OpSetSupply (47 # 10); OpCalibrate 1 1] = 47 # 10 /\
+  last_supply 5 [OpRead 2; OpCalibrate 1 1] = 5 /\
+  Forall no_calibrate [OpRead 2; OpSetSupply (33 # 10); OpRead 2] /\ ~ no_calibrate (OpCalibrate 1 1) /\
+  (exists y, pressure doc_consts (final_state doc_consts (new_sensor 5)
+               [OpCalibrate 2 50; OpSetSupply (47 # 10); OpRead 1; OpSetSupply 0]) 2 = Val y /\ y == 50).
+Proof.
+  split; [reflexivity|]. split; [vm_compute; reflexivity|]. split; [vm_compute; reflexivity|].
+  split; [reflexivity|]. split; [reflexivity|]. split; [reflexivity|].
+  split; [repeat constructor|]. split; [exact (fun H => H)|].
+  eexists. split; [reflexivity|vm_compute; reflexivity].
+Qed.
+
 Print Assumptions C18_same_unit.
 Print Assumptions C18_there_and_back.
 Print Assumptions C18_composition.
@@ -569,6 +641,10 @@ Print Assumptions C18_reads_keep_state.
 Print Assumptions C18_history_calibrated.
 Print Assumptions C18_history_calibrated_general.
 Print Assumptions C18_history_uncalibrated.
+Print Assumptions C18_history_supply_tracked.
+Print Assumptions C18_history_supply_total.
+Print Assumptions C18_history_set_supply.
 Print Assumptions C18_history_reads_never_raise.
 Print Assumptions C18_history_calibrate_outcome.
 Print Assumptions C18_history_spec.
+Print Assumptions C18_history_no_calibrate_state.
